@@ -29,7 +29,7 @@ ASSUMPTIONS = ["names are ASCII tokens (case-insensitivity is ASCII-only)",
                "equality is only asserted for equal field lists and for lists differing in values/order/length"]
 LEVEL_TEXT = "randomised operation histories checked step by step against a relational specification"
 LEVEL_NOTE = "specification written from the property statement and the Headers docstring"
-QUICK_N, THOROUGH_N = 800_000, 6_000_000
+QUICK_N, THOROUGH_N = 600_000, 6_000_000
 
 NAMES = ["A", "a", "B", "b", "Set-Cookie", "set-cookie", "SET-COOKIE", "x-y"]
 VALUES = ["1", "2", "3", "", "x, y", "a=b; Path=/", "\xe9", "\udcff", "v v", "0"]
